@@ -2,6 +2,7 @@ package rules
 
 import (
 	"go/ast"
+	"go/types"
 	"go/token"
 	"strings"
 
@@ -77,6 +78,20 @@ func runC17(p *eng.Prog, r *eng.Report, tier string) {
 				}
 			}
 			if form == "prefix" {
+				// a prefix whose length is a local that may still hold len(data)
+				// is "everything buffered so far" on those paths: with a newline
+				// in the buffer the whole input must not be what is returned
+				// (line tokens do not depend on whether EOF came with the data)
+				if kid, ok := ast.Unparen(rs.Results[0]).(*ast.Ident); ok {
+					if kv, ok := f.Info().ObjectOf(kid).(*types.Var); ok && eng.IsLocal(kv) {
+						cut := g.CutFor("!lt(bytes.IndexByte(p0,10),0)", "!eq(bytes.IndexByte(p0,10),-1)", "lt(-1,bytes.IndexByte(p0,10))")
+						for _, d := range g.ReachingDefsCut(kv, pt, cut) {
+							if d.RHS != nil && f.Norm(d.RHS, &d.At) == "builtin.len(p0)" && len(f.Calls("bytes.IndexByte")) > 0 {
+								c.r.Check("C17.2", f, "prefix return whose length may be the whole input", "G: assuming the buffer holds a newline, no definition `k = len(data)` reaches a (k, data[:k], nil) return", rs.Pos(), false, "the length defined at "+c.p.Pos(d.Node.Pos())+" as len(data) reaches this return although a newline is in the buffer: at end of input the token runs past the line")
+							}
+						}
+					}
+				}
 				// a token whose length comes from scanning a run (quote marker
 				// plus following white space) may be cut short by the end of
 				// the buffer: wait for more data unless the input ends here
